@@ -261,7 +261,7 @@ func stressCase(idx int64, r *rand.Rand) {
 }
 
 func TestCheck(t *testing.T) {
-	rt.Cases(330, 1320000, func(idx int64) {
+	rt.Cases(1650, 1320000, func(idx int64) {
 		r := rt.CaseRand(19, idx)
 		rt.Case()
 		if idx%55 == 54 {
